@@ -1,12 +1,13 @@
+\* thorough: as v3 with the empty string in the pool
 CONSTANTS
-  Layouts = {0, 1, 2, 3, 5, 6, 7, 8, 9, 20, 21, 22, 23}
+  Layouts = {0, 1, 2, 3, 5, 6, 7, 8, 9}
   Tops = {"graph", "function"}
   Family = "value"
   MinV = 1
   MaxV = 3
   Kinds = {"in", "init", "ii", "out"}
-  OutKinds = {"out", "init", "in", "ii"}
-  VPoolB = {"<none>", "", "v", "v_1", "w"}
+  OutKinds = {"out", "init"}
+  VPoolB = {"<none>", "", "v", "v_1"}
   NPoolB = {"n"}
   SmallStep = FALSE
   EmitOn = TRUE
